@@ -378,7 +378,8 @@ def run_case(ctx):
         if terms:
             H = dense.op_dense(gm.basis, terms)
             target = H @ w.ref
-            if np.linalg.norm(target) > 1e-6 * np.linalg.norm(H) * w.scale and not np.iscomplexobj(H):
+            # (the generated terms may cancel to a numerical zero, e.g. a product with its own negative adjoint: nothing to compress)
+            if np.linalg.norm(H) > 1e-8 and np.linalg.norm(target) > 1e-6 * np.linalg.norm(H) * w.scale and not np.iscomplexobj(H):
                 ctx.cls("variational")
                 o = ctx.lib(Mpo, model, terms, what="Mpo", refusals=("Cannot cast",))
                 src = mp.copy()
